@@ -110,6 +110,7 @@ func tokenizerWindowRules(c *Ctx, p *core.Prog) {
 	}
 	checkCarryOver(c, p, ts, read)
 	checkDecoderWindow(c, p, ts, read)
+	checkAllBytesAtEOF(c, p, ts, read)
 }
 
 // licenseLiterals returns the non-Copyright Match literals of v2.
@@ -1199,6 +1200,9 @@ func runC06(c *Ctx) {
 	// shared with C04/C09: the line that is tested for being a notice is this call's line - nothing the tokenizer uses is
 	// shared between calls (R04.1)
 	matchReadOnly(c, p, "R04.1")
+	// shared with C08: a word split with a (multi-byte) hyphen at the edge of a read window is joined like anywhere else -
+	// the bytes carried over to the next window start where the rune loop stopped (R08.4/R08.5/R08.8)
+	tokenizerWindowRules(c, p)
 	checkWordTable(c, p)
 	// R03.7
 	n := 0
